@@ -14,6 +14,13 @@ TABLE = os.path.join(os.path.dirname(__file__), "tables", "mustpass.json")
 NOISE = re.compile(r"^(core|std|alloc)::(fmt|panicking|hint|mem::drop|ptr::drop|ops::Drop|clone::Clone|convert::(Into|From|AsRef)|ops::Deref|borrow::)|::deref(_mut)?$|::clone$|::into$|::from$|::as_ref$|::borrow$|Try>::branch$|FromResidual|::into_iter$|::default$")
 
 
+# pure accessors: whether they are evaluated eagerly or lazily changes with every inline / extract refactoring and never changes behaviour
+GETTERS = {"len", "offset", "data_type", "nulls", "null_count", "is_empty", "values", "buffers", "buffer", "child_data", "as_ref", "as_any", "is_null", "is_valid", "value",
+           "offsets", "value_offsets", "inner", "keys", "fields", "schema", "columns", "column", "num_rows", "num_columns", "as_slice", "as_ptr", "capacity", "name", "is_nullable",
+           "validity", "run_ends", "type_ids", "value_length", "iter", "get", "first", "last", "unwrap", "expect", "is_some", "is_none", "is_ok", "is_err", "ok", "as_usize",
+           "to_usize", "as_str", "as_bytes", "metadata", "options", "descending", "nulls_first"}
+
+
 def short(n):
     n = flow.norm(n or "")
     n = re.sub(r"<[^<>]*>", "", n)
@@ -44,7 +51,7 @@ def mustpass_callees(fn):
         t = b.term(bl)
         if t["k"] == "call":
             n = callee(t) or ""
-            if n and not NOISE.search(n):
+            if n and not NOISE.search(n) and n.split("::")[-1] not in GETTERS:
                 out.add(short(n))
     return sorted(out)
 
@@ -119,7 +126,7 @@ def check(ck, F, rule, prefixes, floor):
         if fn is None or "mir" not in fn:
             continue
         cur = mustpass_callees(fn)
-        if cur is None:
+        if cur is None or flow.calls_new_function(F, fn):
             continue
         b = Body(fn)
         present = {short(callee(t) or "") for _, t in b.calls()}
